@@ -55,6 +55,7 @@ def run_world(
     derive: Any = None,
     warm_values: Any = None,
     kw_split: int | None = None,
+    warn_errors: bool = False,
 ) -> dict:
     """One fresh world: compile, run one top-level call, return outcome + runtime.
 
@@ -62,6 +63,7 @@ def run_world(
     """
     cfg = cfg or {}
     rt = Runtime(schedule=cfg.get("schedule") if mode != "sync" else None, faults=faults)
+    rt.runtime_warnings_are_errors = bool(warn_errors)
     if monitors:
         rt.monitors.extend(monitors)
     kw = dict(run_kwargs or {})
